@@ -19,11 +19,13 @@ SCENARIOS = {"slow": 2, "fast": 2, "process": 1}
 TIERS = {"quick": {"runs": 640, "chunk": 4, "recheck": 2},
          "thorough": {"runs": 50000000, "wall_s": 600, "chunk": 8, "recheck": 16}}
 RULE = ("one run = one drawn configuration (1-3 terminals, read-write or read-only, FMMU or "
-        "direct, wire jitter, AL transition delays 0..2 polls) of a slow SyncGroup or a "
+        "direct, wire jitter, AL transition delays 0..2 polls, terminals found in any AL state "
+        "with or without a pending error) of a slow SyncGroup or a "
         "FastSyncGroup on the simulated bus; a reference simulation counts the S steps of "
         "the group task up to its third cycle; then S simulations cancel the task before "
         "step n (n = 1..S, exhaustive) and 8 more cancel it at drawn times while it is "
-        "suspended; evaluations = cancelled simulations; distinct = distinct (kind, "
+        "suspended, and 6 cancel it before a drawn step while a terminal the group only reads "
+        "stops answering at that moment; evaluations = cancelled simulations; distinct = distinct (kind, "
         "configuration digest, n); non-trivial = the cancel landed after the group had "
         "started to talk to its terminals")
 COMPONENTS = {
